@@ -82,13 +82,18 @@ CLAIMED = {
     technique='contract-based deductive verification (Python-AST VCs, z3/cvc5)'),
   'C07': dict(
     category='other',
-    text='Relational bounded contract: every catalogue schema under permutations of rules / conjuncts / disjuncts and '
+    text='Proved from the current source (38 obligations): the ordering loop of RuleStructure.SortUnnestings returns a '
+         'permutation of the unnestings in which everything an unnesting depends on is bound by an earlier one, whatever '
+         'order they were written in (only the circular-dependency diagnostic may be raised); NamesAllocator.AllocateVar '
+         'never repeats a name. Relational bounded contract: every catalogue schema under permutations of rules / conjuncts / disjuncts and '
          'consistent renamings of variables and predicates must satisfy its original spec comprehension; aggregate UDFs '
          'under contract over every arrival order; run-time contracts on SortUnnestings, AllocateVar/AllocateTable, '
          'PredicateSql and DisambiguateCombineVariables (names unique across the compilation).',
     design_ref='DESIGN.md section 4, C07',
-    note='bounded: finite catalogue x sampled databases; commutativity of SQL joins/UNION ALL assumed.',
-    technique='contracts on the real functions executed natively (bounded stand-in) + relational schema contracts'),
+    note='bounded: finite catalogue x sampled databases; commutativity of SQL joins/UNION ALL assumed; the tables SortUnnestings '
+         'starts from (dict comprehensions over the syntax tree) are parameters of the proved slice.',
+    technique='contract-based deductive verification of the ordering loop (Python-AST VCs, z3/cvc5) + contracts on the real '
+              'functions executed natively (bounded stand-in) + relational schema contracts'),
   'C08': dict(
     category='other',
     text='OkInjection / NoInject / ForceWith decision functions proved (shared with C18); RunInjections and TranslateTable '
